@@ -246,3 +246,190 @@ func TestVerifC10Listener(t *testing.T) {
 		run.Floor("seg_"+s, int64(n/5*8/10))
 	}
 }
+
+// TestVerifC10ListenerLongLived: tunnels through the real CrossNodeListener
+// (Start()/acceptLoop) that stay open and carry bytes both ways again LATER in their
+// life (quick: once at an age of 3.3 s, thorough: at 3.3 s, 7 s and 15 s). The clock only
+// shapes the schedule (how old the connection is when the late bytes are written); the
+// verdict is the byte comparison: everything written in either direction, early or
+// late, arrives, and end-of-stream comes only after the writer's half-close.
+func TestVerifC10ListenerLongLived(t *testing.T) {
+	vk.Quiet()
+	run := vk.Start(t, "C10", "listener-longlived")
+	defer run.Finish()
+	run.Rule("4 (thorough 8) tunnels accepted by the real CrossNodeListener, TargetReady frame with / without coalesced payload head; early exchange both ways, then further seeded chunks (1 B .. 100 KiB) both ways when the connection is >= 3.3 s old (thorough: also >= 7 s and >= 15 s), then half-close both ways; distinct = (tunnel, phase)")
+	r := run.Rand("gen")
+	ctx, cancel := context.WithCancel(context.Background())
+	defer cancel()
+	stor := storage.NewMemoryStorage(ctx)
+	idm := idgen.NewIDManager(stor, ctx)
+	defer idm.Close()
+	sm := NewSessionManager(idm, ctx)
+	defer sm.Close()
+	l := NewCrossNodeListener(sm, 0)
+	if err := l.Start(ctx); err != nil {
+		t.Fatalf("c10: listener start: %v", err)
+	}
+	defer l.Stop()
+	addr := fmt.Sprintf("127.0.0.1:%d", l.listener.Addr().(*net.TCPAddr).Port)
+	ln, err := net.Listen("tcp", "127.0.0.1:0")
+	if err != nil {
+		t.Fatalf("c10: listen: %v", err)
+	}
+	defer ln.Close()
+
+	ages := []time.Duration{3300 * time.Millisecond}
+	if run.Thorough() {
+		ages = append(ages, 7*time.Second, 15*time.Second)
+	}
+	maxAge := ages[len(ages)-1]
+	type tun struct {
+		idStr              string
+		srcClient, cross   *net.TCPConn
+		bridge             *TunnelBridge
+		toSrc, toTarget    []byte // everything written so far in each direction
+		srcSink, crossSink *c10fSink
+		seedS, seedT       uint64
+		werr               error
+		opened             time.Time
+		phases             int
+	}
+	nt := run.Pick(4, 8)
+	var tuns []*tun
+	write := func(tn *tun, toTarget bool, n int) {
+		if tn.werr != nil {
+			return
+		}
+		var c *net.TCPConn
+		var p []byte
+		if toTarget {
+			p = vk.Pattern(tn.seedT, len(tn.toTarget), n)
+			c = tn.srcClient
+		} else {
+			p = vk.Pattern(tn.seedS, len(tn.toSrc), n)
+			c = tn.cross
+		}
+		for off := 0; off < len(p) && tn.werr == nil; {
+			k := 1 + r.Intn(40000)
+			if k > len(p)-off {
+				k = len(p) - off
+			}
+			_, tn.werr = c.Write(p[off : off+k])
+			off += k
+		}
+		if tn.werr == nil {
+			if toTarget {
+				tn.toTarget = append(tn.toTarget, p...)
+			} else {
+				tn.toSrc = append(tn.toSrc, p...)
+			}
+		}
+	}
+	for i := 0; i < nt; i++ {
+		tn := &tun{idStr: c10lIDString(r), seedS: r.Uint64(), seedT: r.Uint64(), srcSink: c10fNewSink(), crossSink: c10fNewSink()}
+		srcClient, srcServer := c10fPair(t, ln)
+		srcServer.SetDeadline(time.Time{}) // the bridge's end: no harness deadline on it
+		tn.srcClient = srcClient
+		tn.bridge = NewTunnelBridge(ctx, &TunnelBridgeConfig{TunnelID: tn.idStr, MappingID: "c10-longlived", SourceConn: srcServer})
+		sm.bridgeLock.Lock()
+		sm.tunnelBridges[tn.idStr] = tn.bridge
+		sm.bridgeLock.Unlock()
+		c, err := net.DialTimeout("tcp", addr, 10*time.Second)
+		if err != nil {
+			t.Fatalf("c10: dial cross-node listener: %v", err)
+		}
+		tn.cross = c.(*net.TCPConn)
+		dl := time.Now().Add(c10fWatchdog + maxAge)
+		tn.cross.SetDeadline(dl)
+		tn.srcClient.SetDeadline(dl)
+		wireID, _ := TunnelIDFromString(tn.idStr)
+		var frame bytes.Buffer
+		if err := WriteFrameToWriter(&frame, wireID, FrameTypeTargetReady, EncodeTargetReadyMessage(tn.idStr, "c10-node-target")); err != nil {
+			t.Fatalf("c10: encode TargetReady: %v", err)
+		}
+		first := frame.Bytes()
+		if i%2 == 0 { // payload head in the same write as the handshake frame
+			head := vk.Pattern(tn.seedS, 0, 1+r.Intn(3000))
+			first = append(append([]byte(nil), first...), head...)
+			tn.toSrc = append(tn.toSrc, head...)
+		}
+		_, tn.werr = tn.cross.Write(first)
+		go tn.srcSink.run(tn.srcClient, rand.New(rand.NewSource(r.Int63())), 1<<30)
+		go tn.crossSink.run(tn.cross, rand.New(rand.NewSource(r.Int63())), 1<<30)
+		// early exchange: proves the tunnel is up (and that accept happened before "opened")
+		write(tn, false, 1+r.Intn(50000))
+		write(tn, true, 1+r.Intn(50000))
+		tn.srcSink.waitFor(len(tn.toSrc))
+		tn.crossSink.waitFor(len(tn.toTarget))
+		tn.opened = time.Now()
+		tuns = append(tuns, tn)
+		run.Case(fmt.Sprintf("longlived|open|%d", i), map[string]any{"tunnel_id": tn.idStr})
+	}
+	for pi, age := range ages {
+		for i, tn := range tuns {
+			if d := age - time.Since(tn.opened); d > 0 {
+				time.Sleep(d)
+			}
+			run.Case(fmt.Sprintf("longlived|late|%d|%v", i, age), nil)
+			for k := 0; k < 2; k++ {
+				write(tn, true, 1+r.Intn(100<<10))
+				write(tn, false, 1+r.Intn(100<<10))
+			}
+			if tn.crossSink.waitFor(len(tn.toTarget)) && tn.srcSink.waitFor(len(tn.toSrc)) {
+				tn.phases++
+				run.Count(fmt.Sprintf("late_exchanges_completed_at_age_ms_%d", age.Milliseconds()), 1)
+			}
+			run.Max("max_tunnel_age_ms_at_a_late_write", time.Since(tn.opened).Milliseconds())
+			run.Distinct(fmt.Sprintf("tunnel%d|phase%d", i, pi))
+		}
+	}
+	for i, tn := range tuns {
+		if tn.werr == nil {
+			tn.werr = tn.srcClient.CloseWrite()
+		}
+		if tn.werr == nil {
+			tn.werr = tn.cross.CloseWrite()
+		}
+		crossGot, crossErr := tn.crossSink.wait()
+		srcGot, srcErr := tn.srcSink.wait()
+		tn.cross.Close()
+		tn.srcClient.Close()
+		sm.bridgeLock.Lock()
+		delete(sm.tunnelBridges, tn.idStr)
+		sm.bridgeLock.Unlock()
+		tn.bridge.Close()
+		run.Eval(1)
+		if c10fTimeout(tn.werr) || c10fTimeout(crossErr) || c10fTimeout(srcErr) {
+			run.Count("watchdog", 1)
+			continue
+		}
+		run.Count("bytes_compared", int64(len(crossGot)+len(srcGot)))
+		class := ""
+		switch {
+		case !bytes.Equal(crossGot, tn.toTarget):
+			class = "to-target-" + c10fDiff(crossGot, tn.toTarget)
+		case tn.werr != nil:
+			class = "write-refused"
+		case crossErr != io.EOF:
+			class = "to-target-no-eof"
+		case !bytes.Equal(srcGot, tn.toSrc):
+			class = "to-source-" + c10fDiff(srcGot, tn.toSrc)
+		case srcErr != io.EOF:
+			class = "to-source-no-eof"
+		}
+		if class == "" {
+			run.Count("tunnels_ok", 1)
+			continue
+		}
+		run.Violation("C10:listener|long-lived|"+class, map[string]any{"seed": run.Seed, "tunnel": i, "tunnel_id": tn.idStr,
+			"late_phases_completed": tn.phases, "ages": fmt.Sprint(ages), "age_at_end_ms": time.Since(tn.opened).Milliseconds(),
+			"to_target_written": len(tn.toTarget), "to_target_delivered": len(crossGot), "to_target_end": fmt.Sprint(crossErr),
+			"to_source_written": len(tn.toSrc), "to_source_delivered": len(srcGot), "to_source_end": fmt.Sprint(srcErr), "write_error": fmt.Sprint(tn.werr)})
+	}
+	if run.Counter("watchdog") == 0 {
+		run.Count("watchdog_free", 1)
+	}
+	run.Floor("watchdog_free", 1)
+	run.Floor("max_tunnel_age_ms_at_a_late_write", maxAge.Milliseconds())
+	run.Floor(fmt.Sprintf("late_exchanges_completed_at_age_ms_%d", ages[0].Milliseconds()), int64(nt))
+}
